@@ -79,6 +79,7 @@ func main() {
 		return 200, b
 	}))
 	l.url = w.OCSP.URL("/ocsp")
+	w.OCSP.Fragment.Store(run.Seed%2 == 0) // even seeds: answers delivered in two pieces
 	l.strictOn = newChecker(true, time.Hour)
 	l.strictOf = newChecker(false, time.Hour)
 
